@@ -3,6 +3,7 @@ package main
 // C04 — JSON written by -o and json() is valid and equal to the value it represents.
 
 import (
+	"sort"
 	"bytes"
 	"encoding/json"
 	"fmt"
@@ -70,7 +71,11 @@ func (g *docGen) strText() string {
 			sb.WriteString("\\u0000")
 			g.stats["nul"]++
 		case 2:
-			sb.WriteString([]string{"\\u00e9", "\\u65e5", "\\u2028", "\\u001f", "\\u007f"}[g.rng.IntN(5)])
+			sb.WriteString([]string{"\\u00e9", "\\u65e5", "\\u2028", "\\u001f", "\\u007f", "\\u0001", "\\u0007", "\\u000b", "\\udb40\\udc01", "\\ufeff", "\\u0085", "\\u00a0", "\\ufffe", "\\u200b"}[g.rng.IntN(14)])
+		case 9:
+			// raw characters that reader-side conveniences like to drop: U+FEFF (the byte order mark), U+2028, DEL, a private-use astral character
+			sb.WriteString([]string{"\ufeff", "\u2028", "\x7f", "\U000e0001", "\u00a0", "\ufeffx\ufeff"}[g.rng.IntN(6)])
+			g.stats["raw-special-characters"]++
 		case 3:
 			sb.WriteString("\\ud83d\\ude00") // surrogate pair
 			g.stats["surrogate-pair"]++
@@ -159,6 +164,21 @@ func (g *docGen) doc() string {
 		return sb.String()
 	case 1:
 		return g.value(0)
+	case 2:
+		if g.rng.IntN(3) == 0 {
+			// a document of 2-20 KiB in which a three-byte character recurs at varying offsets (some fall on the boundaries of read chunks)
+			var sb strings.Builder
+			sb.WriteString("[")
+			for i := 0; sb.Len() < 2000+g.rng.IntN(18000); i++ {
+				if i > 0 {
+					sb.WriteString(",")
+				}
+				sb.WriteString("\"" + strings.Repeat("x", g.rng.IntN(7)) + "\ufeff" + strings.Repeat("\ufeff", g.rng.IntN(3)) + "\"")
+			}
+			sb.WriteString("]")
+			g.stats["long-with-recurring-bom-character"]++
+			return sb.String()
+		}
 	}
 	return g.value(2 + g.rng.IntN(4))
 }
@@ -169,6 +189,7 @@ var c04Programs = []struct {
 }{
 	{"", ""}, {"{}", ""}, {"{ }", ""}, {"$.a is number && $.a > 1 { }", ""}, {"{ x = $ }", ""}, {"BEGINFILE { n++ } ENDFILE { m = n }", ""}, {"$ is object { for (k, v in $) { c++ } }", ""},
 	{"{ y = $.a.b.c; z = $[0] }", ""}, {"$ is array { t++ }", ""}, {"{}", "a"}, {"{ x = $ }", "0"}, {"", "a"}, {"{}", "whole"},
+	{"JSONCALLS", ""},
 }
 
 func hasJSONFeature(text string) bool {
@@ -216,6 +237,10 @@ func c04Doc(c *Case) {
 		c.CountN("documents_with:"+k, v)
 	}
 	c.Count("documents")
+	if pc.prog == "JSONCALLS" {
+		c04JsonCalls(c, g, text, want)
+		return
+	}
 	lib := RunLib(pc.prog, []InFile{{Name: "in.json", Data: []byte(text)}}, sels, RunOpts{WantRoot: true})
 	rp := map[string]any{"program": pc.prog, "selectors": sels, "input": text}
 	if lib.Class != "ok" {
@@ -294,6 +319,75 @@ func c04Doc(c *Case) {
 		}
 		c.Held()
 	}
+}
+
+// json($) and json() of every member / element of the document, as text: each must be valid JSON equal to the value
+func c04JsonCalls(c *Case, g *docGen, text string, want any) {
+	const sep = "\x01SEP\x02"
+	prog := "{ printf('%s" + sep + "', json($)) } $ is array { for (v in $) { printf('%s" + sep + "', json(v)) } } $ is object { for (k, v in $) { printf('%s" + sep + "', json(v)) } }"
+	// a pattern rule over an array root runs per element: wrap the document so that $ is the document itself
+	doc := "{\"d\": " + text + "}"
+	prog = "{ printf('%s" + sep + "', json($.d)); if ($.d is array) { for (v in $.d) { printf('%s" + sep + "', json(v)) } } if ($.d is object) { for (k, v in $.d) { printf('%s" + sep + "', json(v)) } } }"
+	lib := RunLib(prog, []InFile{{Name: "in.json", Data: []byte(doc)}}, nil, RunOpts{Budget: 2000000})
+	c.Count("json_call_documents")
+	rp := map[string]any{"program": prog, "input": doc}
+	if lib.Class != "ok" {
+		c.Violation(fmt.Sprintf("json() of a well-formed document ended as %s (%s %s) | input %s", lib.Class, lib.Msg, lib.PanicVal, clip(doc, 160)), nil, rp)
+		return
+	}
+	parts := strings.Split(string(lib.Stdout), sep)
+	parts = parts[:len(parts)-1]
+	var wants []any
+	wants = append(wants, want)
+	switch x := want.(type) {
+	case []any:
+		wants = append(wants, x...)
+	case map[string]any:
+		keys := make([]string, 0, len(x))
+		for k := range x {
+			keys = append(keys, k)
+		}
+		sort.Strings(keys)
+		for _, k := range keys {
+			wants = append(wants, x[k])
+		}
+	}
+	if len(parts) != len(wants) {
+		c.Violation(fmt.Sprintf("json() calls: %d results for %d values | input %s", len(parts), len(wants), clip(doc, 160)), nil, rp)
+		return
+	}
+	if hasJSONFeature(text) {
+		c.NonTrivial("jsoncalls|" + text)
+	}
+	_, isObj := want.(map[string]any)
+	for i, pt := range parts {
+		if !json.Valid([]byte(pt)) || !utf8.ValidString(pt) {
+			c.Violation(fmt.Sprintf("json() result %d is not valid JSON: %s | input %s", i, clip(pt, 120), clip(doc, 160)), nil, rp)
+			return
+		}
+		got, _, _ := decodeOne([]byte(pt))
+		if isObj && i > 0 {
+			// members are visited in an unspecified order: each result must equal some member not yet used
+			found := -1
+			for j := 1; j < len(wants); j++ {
+				if wants[j] != struct{}{} && jsonEqual(wants[j], got) {
+					found = j
+					break
+				}
+			}
+			if found < 0 {
+				c.Violation(fmt.Sprintf("json() of a member gives %s, which equals no member of the document | input %s", clip(pt, 120), clip(doc, 160)), nil, rp)
+				return
+			}
+			wants[found] = struct{}{}
+			continue
+		}
+		if !jsonEqual(wants[i], got) {
+			c.Violation(fmt.Sprintf("json() result %d differs from the value at %s: %s | input %s", i, firstDiffPath(wants[i], got, "$"), clip(pt, 120), clip(doc, 160)), nil, rp)
+			return
+		}
+	}
+	c.Held()
 }
 
 func c04Jq(c *Case, in, out string) {
@@ -575,7 +669,7 @@ func c04Run(c *Case) {
 func init() {
 	register(&Prop{
 		ID: "C04", Level: "exploration",
-		Rule:          "sampled documents written as JSON TEXT by a hostile generator (empty arrays/objects at every depth, nesting to 200, every escape, \\u0000, surrogate pairs, lone surrogates, non-ASCII, invalid UTF-8, keys that are method names or duplicated, numbers of every class: -0, subnormals, 2^53+-1, 1e308, 5e-324, 50-digit integers, long fractions, random bit patterns) x 13 programs that do not modify the document (empty program, empty rule, read-only patterns, copies, for-in, -r $ / $.a / $[0]): the -o JSON must be valid UTF-8 JSON and decode to a value equal (float64 bits, strings after the decoder's own UTF-8 repair, key sets) to the input as read, resp. to the selected sub-document; a sample goes through the binary's -o FILE; thorough adds `jq -cS .` on input and output as a second opinion. Values whose parts are shared and resized through one of several references (copies, push / pop / popfirst through either name, arrays pushed into arrays): json(v) and the -o document must decode to the value `print v` shows (law on the implementation alone). Constructed values (auto-created containers, shared structures) printed with json() must parse back to the reference model's value. Enumerated: the 22-shape cyclic/shared table through json(), -o in the library and -o - in the binary (cycles: error, nothing written; shared-acyclic: written in full), and 8 inexpressible values (functions, natives, +-Inf, NaN, nested). Non-trivial = document with an escape, a non-integer number or >= 2 containers; distinct by document+program.",
+		Rule:          "sampled documents written as JSON TEXT by a hostile generator (empty arrays/objects at every depth, nesting to 200, every escape, \\u0000, surrogate pairs, lone surrogates, non-ASCII, invalid UTF-8, keys that are method names or duplicated, numbers of every class: -0, subnormals, 2^53+-1, 1e308, 5e-324, 50-digit integers, long fractions, random bit patterns) x 13 programs that do not modify the document, plus a program that calls json() on the document and on each of its members / elements (each result valid JSON equal to that value) (empty program, empty rule, read-only patterns, copies, for-in, -r $ / $.a / $[0]): the -o JSON must be valid UTF-8 JSON and decode to a value equal (float64 bits, strings after the decoder's own UTF-8 repair, key sets) to the input as read, resp. to the selected sub-document; a sample goes through the binary's -o FILE; thorough adds `jq -cS .` on input and output as a second opinion. Values whose parts are shared and resized through one of several references (copies, push / pop / popfirst through either name, arrays pushed into arrays): json(v) and the -o document must decode to the value `print v` shows (law on the implementation alone). Constructed values (auto-created containers, shared structures) printed with json() must parse back to the reference model's value. Enumerated: the 22-shape cyclic/shared table through json(), -o in the library and -o - in the binary (cycles: error, nothing written; shared-acyclic: written in full), and 8 inexpressible values (functions, natives, +-Inf, NaN, nested). Non-trivial = document with an escape, a non-integer number or >= 2 containers; distinct by document+program.",
 		NumCases:      c04Cases,
 		Run:           c04Run,
 		MinConclusive: func(tier string) int { return 10000 },
